@@ -447,6 +447,15 @@ fn main() {
             }
         },
         "replay" => replay(&args),
+        // run the implementation alone on the cases of a corpus file (one per line) and print its
+        // answers; `check` uses this to find out which in-flight input kills the process
+        "one" => {
+            run::install_quiet_panic_hook();
+            for c in load_corpus(&args.target) {
+                println!("{}", run::impl_answer(&c));
+            }
+            0
+        }
         "catalogue" => {
             for s in ctx::host_catalogue() {
                 println!("{}", s.join(" "));
